@@ -431,7 +431,9 @@ fn reclamation(ctx: &Ctx, rep: &mut Report) {
             let held_after = if per > 0 { (Ep::live() - base) / per } else { 0 };
             let snap = srv.snapshot();
             let stale_bytes: usize = snap.iter().filter_map(|e| e.5.as_ref()).filter(|b| b.first() == Some(&0xAB)).map(|b| b.len()).sum();
-            if held_before as u64 == c && bytes_before as u64 == 1024 * c && held_after <= 1 && stale_bytes == 0 && snap.len() <= 1 {
+            // (without hooks the snapshot is empty: only the live key instances speak)
+            let visible_before_ok = !HOOKS || bytes_before as u64 == 1024 * c;
+            if held_before as u64 == c && visible_before_ok && held_after <= 1 && stale_bytes == 0 && snap.len() <= 1 {
                 rep.count("abandoned-transfers-reclaimed");
                 rep.bucket(&(c, same_key));
             } else {
